@@ -42,6 +42,20 @@ from typing import Iterable
 
 import numpy as np
 import sympy as sym
+from sympy.printing.str import StrPrinter
+
+
+class _BlackbirdPrinter(StrPrinter):
+    """Prints SymPy expressions so that Blackbird reads them back unchanged: in
+    Blackbird a sign binds tighter than ``**`` (``-a**2`` is ``(-a)**2``), so the
+    negation of a power is written ``-1*a**2``."""
+
+    def _print_Mul(self, expr):
+        text = super()._print_Mul(expr)
+        coeff, rest = expr.as_coeff_Mul()
+        if coeff == -1 and text.startswith("-") and rest.as_ordered_factors()[0].is_Pow:
+            return "-1*" + text[1:]
+        return text
 
 
 def numpy_to_blackbird(A, var_name):
@@ -110,11 +124,14 @@ def _format_value(v, tdm=False):
     if isinstance(v, complex):
         return "{}{}{}j".format(v.real, "+-"[int(v.imag < 0)], np.abs(v.imag))
 
-    if isinstance(v, sym.Expr):
+    # a register transform is written as its expression (registers are not parameters)
+    expr = getattr(v, "expr", v)
+
+    if isinstance(expr, sym.Expr):
         # the expression contains free parameters: enclose each of them in braces,
         # matching whole identifiers only (not parts of other names or of numbers);
         # SymPy's imaginary unit I is written as the Blackbird literal 1j
-        names = {str(p) for p in v.free_symbols}
+        names = {str(p) for p in v.free_symbols} if isinstance(v, sym.Expr) else set()
 
         def _identifier(m):
             if m.group(0) in names:
@@ -123,7 +140,11 @@ def _format_value(v, tdm=False):
                 return "1j"
             return m.group(0)
 
-        return re.sub(r"(?<![0-9A-Za-z_.])[A-Za-z_][0-9A-Za-z_]*", _identifier, str(v))
+        return re.sub(
+            r"(?<![0-9A-Za-z_.])[A-Za-z_][0-9A-Za-z_]*",
+            _identifier,
+            _BlackbirdPrinter().doprint(expr),
+        )
 
     # booleans, ints and floats (Python or NumPy scalars)
     return "{}".format(v)
